@@ -957,6 +957,11 @@ func init() {
 		{"R7", "the buffer length is only ever tested relative to a position: no branch in a resumable function compares len(buf) with a constant alone — such a test measures from byte 0, not from the continuation offset, and answers differently for offs > 0 or a resumed call", ruleR7},
 		{"R8", "an offset handed back after input was consumed is a position of the scan: in a resumable function no return of the bare offs parameter is dominated by a call to a streaming callee (a resumed call starts elsewhere than a one-shot call, so the reported offset would differ)", ruleR8},
 		{"R9", "ParseTokenParam suspends before the whitespace it cannot classify yet: in every token state the more-bytes exit taken on whitespace returns the position before it (shared with C17-L2), which the step-back return and the trimming of a resumed call rely on", ruleR9},
+		{"R10", "the automata of the three small header-value parsers (ParseCSeqVal, ParseCallIDVal, ParseUIntVal) equal their reviewed reference tables (ref/*.txt): state x byte class -> next state / exit, verdicts, field actions, returned offset", func(c *Ctx) {
+			for _, f := range []string{"ParseCSeqVal", "ParseCallIDVal", "ParseUIntVal"} {
+				fsmRefRule(c, "R10", f)
+			}
+		}},
 		{"R4", "the verdict of every call to a callee that may report more-bytes is returned or tested, never discarded", ruleR4},
 		{"R6", "read-back values that must not depend on how the input was cut: the raw-message / buffer views use the start offset saved on the first call (never the current call's offset), and the header counters advance exactly on first entry of a header, not on resume", ruleR6},
 		{"R5", "slot persistence of the list parsers: no reset of the in-progress slot on more-bytes paths or before the sub-parser is re-entered; reset before the next element", ruleR5},
